@@ -349,7 +349,7 @@ public:
   }
 
   ASMJIT_INLINE_NODEBUG void init(const Op& op0, const Op& op1, const Op& op2, const Op& op3, const Op& op4, const Op& op5, const Op& op6, const Op& op7) noexcept {
-    _size = 7;
+    _size = 8;
     v[0] = op0;
     v[1] = op1;
     v[2] = op2;
